@@ -325,7 +325,7 @@ def main(argv=None):
     # over the groups so that every backend keeps its most important harnesses; what does not fit runs in the thorough tier.
     # (vp check stops a quick command after 900 s; 16 cores, builds take 1-2 min.)
     if tier == "quick" and not only:
-        budget = float(os.environ.get("VERIF_QUICK_BUDGET_S", "4500"))
+        budget = float(os.environ.get("VERIF_QUICK_BUDGET_S", "3800"))
         cost = lambda un, h: timings.get(f"{un}::{h.name}", 120.0)
         queues = {g: [(u.name, h) for u in us for h in selected[u.name]] for g, us in groups.items()}
         # within a group keep the round-robin order over its units
@@ -340,7 +340,7 @@ def main(argv=None):
             queues[g] = q
         kept = {un: [] for un in selected}
         spent, i = 0.0, 0
-        cheap_spent, cheap_budget = 0.0, float(os.environ.get("VERIF_QUICK_CHEAP_BUDGET_S", "1500"))
+        cheap_spent, cheap_budget = 0.0, float(os.environ.get("VERIF_QUICK_CHEAP_BUDGET_S", "1200"))
         while any(i < len(q) for q in queues.values()):
             for g, q in queues.items():
                 if i < len(q):
